@@ -7,7 +7,11 @@
 (*   "sub"    list = ordered sublist of the grids, second = ordered        *)
 (*            sublist of POSITIONS of list (the grids projected from / to) *)
 (*   "mortar" list = ordered sublist of the grids, second = ordered        *)
-(*            sublist of the interfaces                                    *)
+(*            sublist of the interfaces, order = which variant of each     *)
+(*            projection pair is requested first from the one              *)
+(*            MortarProjections object ("int_first" / "avg_first": the     *)
+(*            object caches its matrices; what it returns must not depend  *)
+(*            on the order of the requests)                                *)
 (*   "bnd"    list = ordered sublist of the grids                          *)
 (* with Len(list) + Len(second) <= MaxTotal[m]; for kind "sub" the whole list *)
 (* in list order and in reverse order is offered whatever the bound.       *)
@@ -21,8 +25,9 @@ CONSTANTS MDGs,        \* sequence of md-grid descriptions
           Kinds        \* subset of {"sub", "mortar", "bnd"}
 
 (* ----- enumeration of the family ---------------------------------------------------------------- *)
-VARIABLES kind, m, nd, list, second, stage
-vars == <<kind, m, nd, list, second, stage>>
+VARIABLES kind, m, nd, list, second, stage, order
+vars == <<kind, m, nd, list, second, stage, order>>
+Orders == {"int_first", "avg_first"}
 \* kind "sub":    list = ordered sublist of the grids, second = ordered sublist of positions of list
 \* kind "mortar": list = ordered sublist of the grids, second = ordered sublist of the interfaces
 \* kind "bnd":    list = ordered sublist of the grids
@@ -34,11 +39,12 @@ IsPrefix(a, b) == Len(a) <= Len(b) /\ \A i \in DOMAIN a : a[i] = b[i]
 
 Init == /\ kind \in Kinds /\ m \in DOMAIN MDGs /\ nd \in NDs[m]
         /\ list = <<>> /\ second = <<>> /\ stage = "list"
+        /\ order \in (IF kind = "mortar" THEN Orders ELSE {"none"})
 ExtendList == /\ stage = "list" /\ Len(list) < MaxTotal[m]
               /\ \E g \in 1..NG : g \notin Range(list) /\ list' = Append(list, g)
-              /\ UNCHANGED <<kind, m, nd, second, stage>>
+              /\ UNCHANGED <<kind, m, nd, second, stage, order>>
 ToSecond == /\ stage = "list" /\ stage' = "second"
-            /\ UNCHANGED <<kind, m, nd, list, second>>
+            /\ UNCHANGED <<kind, m, nd, list, second, order>>
 \* the whole list in list order and in reverse order is always offered (permutation law), otherwise the bound
 Room == Len(list) + Len(second) < MaxTotal[m]
 ExtendSecond ==
@@ -50,12 +56,13 @@ ExtendSecond ==
              /\ Room \/ IsPrefix(second', Ident(Len(list))) \/ IsPrefix(second', Reverse(Ident(Len(list))))
      \/ /\ kind = "mortar" /\ Room
         /\ \E i \in 1..NI : i \notin Range(second) /\ second' = Append(second, i)
-  /\ UNCHANGED <<kind, m, nd, list, stage>>
+  /\ UNCHANGED <<kind, m, nd, list, stage, order>>
 Next == ExtendList \/ ToSecond \/ ExtendSecond
 Spec == Init /\ [][Next]_vars
 
 Ready == stage = "second"
-Emit == Ready => PrintT(ToJson([kind |-> kind, m |-> m, nd |-> nd, list |-> list, second |-> second]))
+Emit == Ready => PrintT(ToJson([kind |-> kind, m |-> m, nd |-> nd, list |-> list, second |-> second,
+                                order |-> order]))
 
 Whats == {"cells", "faces"}
 LawRestrictProlong ==
